@@ -114,6 +114,13 @@ POSITIONS = {
     "start-before-comment": lambda c: f"{c}/* c */\na = 1\nEND\n",
     "end-of-text": lambda c: HEAD + f"k = 1\n{c}",
     "end-of-text-glued": lambda c: HEAD + f"k = a{c}",
+    # dash continuations on both sides of the character: an error position has to be
+    # mapped back over the ones before it only (pvl.loads with a strict grammar)
+    "between-continuations": lambda c: HEAD + f'k = "ab-\n cd"\nq = a{c}b\nr = "ef-\n gh"\nEND\n',
+    "between-many-continuations": lambda c: HEAD + (
+        f'k = "a-\n      b-\n      c-\n      d"\nq = {c}\nr = "x-\n y"\ns = "z-\n   w"\nEND\n'),
+    "between-continuations-close": lambda c: HEAD + (
+        f'k = "a-\n              b" q = {c} r = "x-\n y" s = "p-\n q"\nEND\n'),
 }
 # every gap of a small label that exercises each statement form: the character as a
 # token of its own ("gapNN") and glued to the end of the preceding token ("glueNN")
@@ -143,7 +150,8 @@ BASIC_SET = {"name", "unquoted", "quoted", "quoted-first", "quoted-last", "quote
              "glued-before-comment", "after-dash-continuation", "comment", "units", "between", "after-END",
              "lone-line-end", "quoted-2nd-line", "comment-3rd-line", "units-2nd-line",
              "start-glued", "start-own-line", "start-before-comment", "end-of-text",
-             "end-of-text-glued"}
+             "end-of-text-glued", "between-continuations", "between-many-continuations",
+             "between-continuations-close"}
 GAP_EXTRA = {0x100, 0x17F, 0x3B1, 0x2028, 0x20AC, 0xD7FF, 0xD800, 0xDFFF, 0xE000, 0xFEFF,
              0xFFFF, 0x10000, 0x1F600, 0x10FFFF}
 BASIC_POSITIONS = [k for k in POSITIONS if not k.startswith(("gap", "glue"))]
